@@ -14,11 +14,14 @@ PROPS["C19"] = dict(
     explanation="every operation sequence up to the bound is a path decision; priorities are solver variables, each assertion is discharged for all priority values on its path",
     runs={
         "quick": [dict(pkg="./utils", entry="VerifC19", bounds="ops=5", reach=["reversed", "end"]),
-                  dict(pkg="./utils", entry="VerifC19", bounds="ops=6,opset=1", reach=["end"])],
+                  dict(pkg="./utils", entry="VerifC19", bounds="ops=6,opset=1", reach=["end"]),
+                  # long histories (24 pushes, drain to a quarter, reverse, drain) under three priority-order shapes
+                  dict(pkg="./utils", entry="VerifC19Long", bounds="n=24", unwind=400, reach=["long-end"])],
         "thorough": [dict(pkg="./utils", entry="VerifC19", bounds="ops=7", reach=["reversed", "end"]),
-                     dict(pkg="./utils", entry="VerifC19", bounds="ops=8,opset=1", reach=["end"])],
+                     dict(pkg="./utils", entry="VerifC19", bounds="ops=8,opset=1", reach=["end"]),
+                     dict(pkg="./utils", entry="VerifC19Long", bounds="n=40", unwind=400, reach=["long-end"])],
     },
-    outside="sequences longer than the bound (5 mixed operations / 6 push-pop-only operations quick; 7 / 8 thorough, always followed by a full drain); more than one Reverse per history; NaN priorities (Push accepts them; not in 'non-negative priorities')",
+    outside="arbitrary histories longer than the bound (5 mixed operations / 6 push-pop-only operations quick; 7 / 8 thorough, always followed by a full drain); the long histories (24 / 40 pushes, drain, Reverse, drain) only under three priority-order shapes (ascending, descending, zig-zag; all priorities distinct) - they exist for effects that depend on the size or capacity of the backing array; more than one Reverse per history; NaN priorities (Push accepts them; not in 'non-negative priorities')",
     assumptions=COMMON_ASSUME + ["priorities are finite, non-negative, non-NaN (modelled as integer-valued reals in [0,2^20]; only comparisons are applied to them)"],
 )
 
